@@ -132,9 +132,16 @@ impl JoinGraph {
             let to_in_left = left.contains(edge.to);
             let to_in_right = right.contains(edge.to);
 
-            // Edge crosses between left and right
-            if (from_in_left && to_in_right) || (from_in_right && to_in_left) {
+            // Edge crosses between left and right: write each condition as
+            // left-side expression = right-side expression, which is what the planner
+            // turns into hash keys
+            if from_in_left && to_in_right {
                 conditions.extend(edge.conditions.clone());
+            } else if from_in_right && to_in_left {
+                conditions.extend(edge.conditions.iter().map(|cond| JoinCondition {
+                    left: cond.right.clone(),
+                    right: cond.left.clone(),
+                }));
             }
         }
         conditions
